@@ -2,6 +2,6 @@
 # run the thorough tier of every property, two at a time; summary lines to stdout
 cd "$(dirname "$0")/.."
 python3 tools/setup.py > /dev/null 2>&1
-run() { id=$1; s=$(date +%s); out=$(python3 tools/check.py $id --tier thorough 2>&1 | tail -2 | tr '\n' ' '); echo "$id rc=$? $(( $(date +%s) - s ))s $out" | cut -c1-400; }
+run() { id=$1; s=$(date +%s); full=$(python3 tools/check.py $id --tier thorough 2>&1); rc=$?; out=$(echo "$full" | tail -2 | tr '\n' ' '); echo "$id rc=$rc $(( $(date +%s) - s ))s $out" | cut -c1-400; }
 ids="C01 C02 C03 C04 C05 C06 C07 C08 C09 C10 C11 C12 C13 C14 C15 C16 C17 C18 C19 C20"
 echo $ids | tr ' ' '\n' | xargs -P 2 -I{} bash -c "$(declare -f run); run {}"
